@@ -58,6 +58,9 @@ func (c c02cfg) monitorConfig(id string) *MonitorConfig {
 	switch c.NsMode {
 	case "names":
 		mc.NamespaceSelector = &kemtypes.NamespaceSelector{NameSelector: &kemtypes.NameSelector{MatchNames: []string{"n1"}}}
+	case "names2":
+		// several informers in one monitor, declared in non-alphabetical order
+		mc.NamespaceSelector = &kemtypes.NamespaceSelector{NameSelector: &kemtypes.NameSelector{MatchNames: []string{"n3", "n2", "n1"}}}
 	case "labels":
 		mc.NamespaceSelector = &kemtypes.NamespaceSelector{LabelSelector: &metav1.LabelSelector{MatchLabels: map[string]string{"watch": "yes"}}}
 	}
@@ -200,6 +203,7 @@ func (w *c02world) reference(c c02cfg) []string {
 		if c.NsMode == "names" && parts[0] != "n1" {
 			continue
 		}
+		// names2 names all three namespaces: everything matches
 		if c.NsMode == "labels" && !w.ns[parts[0]] {
 			continue
 		}
@@ -383,6 +387,7 @@ func TestVerifC02a(t *testing.T) {
 		}
 		cfgs = append(cfgs, c02cfg{nm, false, true, true}, c02cfg{nm, false, true, false})
 	}
+	cfgs = append(cfgs, c02cfg{"names2", false, false, true}, c02cfg{"names2", false, true, false})
 	r.Bound("history_depth", depth)
 	r.Bound("op_alphabet", len(alpha))
 	r.Bound("monitor_configurations", len(cfgs))
